@@ -96,6 +96,6 @@ F("cursym-returns-currate", ["C16"], ("ofxtools/models/i18n.py", "        if cur
 F("ccrq-drops-closing-arm", ["C16"], (BM_, "            elif isinstance(trnrq, CCSTMTENDTRNRQ):\n                stmtrq = trnrq.ccstmtendrq\n", ""))
 F("getattr-raises-keyerror", ["C16"], (B_, "        raise AttributeError(f\"'{cls}' object has no attribute '{attr}'\")", "        raise KeyError(f\"'{cls}' object has no attribute '{attr}'\")"))
 F("securities-reads-request-set", ["C16"], ("ofxtools/models/ofx.py", 'msgs = getattr(self, "seclistmsgsrsv1", None)', 'msgs = getattr(self, "seclistmsgsrqv1", None)'))
-B("rename-loop-var", ["C16"], (BM_, "trnrq)", "wrapper)", 4), (BM_, "trnrq.", "wrapper.", 4), (BM_, "for trnrq in", "for wrapper in", 2))
+B("rename-loop-var", ["C16"], (BM_, "(trnrq, ", "(wrapper, ", 4), (BM_, " trnrq.", " wrapper.", 4), (BM_, "for trnrq in", "for wrapper in", 2))
 B("assert-form-arm", ["C16"], (BM_, "            elif isinstance(trnrq, CCSTMTENDTRNRQ):\n                stmtrq = trnrq.ccstmtendrq\n", "            else:\n                assert isinstance(trnrq, CCSTMTENDTRNRQ)\n                stmtrq = trnrq.ccstmtendrq\n"))
 B("getattr-handler-exception", ["C16"], (B_, "            except (AttributeError, KeyError):\n                continue", "            except (KeyError, AttributeError):\n                logger.debug(\"miss\")\n                continue"))
